@@ -21,6 +21,26 @@ def reader_patterns(folder: Folder) -> list[Regex]:
     return pats
 
 
+def reader_choice(repo: Repo) -> tuple[str, str]:
+    """Which match the reader takes when several notice patterns match one line: ('first', m) = the first pattern of the
+    table that matches (m = search/match), ('leftmost', m) = the match that starts first.  Read from extract_reuse_info."""
+    fn = repo.func(f"{EX}.extract_reuse_info")
+    for loop in ast.walk(fn):
+        if isinstance(loop, ast.For) and ast.unparse(loop.iter) == "_COPYRIGHT_PATTERNS" and isinstance(loop.target, ast.Name):
+            pv = loop.target.id
+            meth = {c.func.attr for c in ast.walk(loop) if isinstance(c, ast.Call) and isinstance(c.func, ast.Attribute)
+                    and isinstance(c.func.value, ast.Name) and c.func.value.id == pv and c.func.attr in ("search", "match", "fullmatch")}
+            has_break = any(isinstance(n, ast.Break) for n in ast.walk(loop))
+            if len(meth) == 1 and has_break:
+                return "first", meth.pop()
+    # comprehension over the table + min(..., key=start)
+    src = ast.unparse(fn)
+    m = re.search(r"(\w+)\.(search|match)\(\w+\) for \1 in _COPYRIGHT_PATTERNS", src)
+    if m and re.search(r"min\([^\n]*key=lambda \w+: \w+\.start\(\)", src):
+        return "leftmost", m.group(2)
+    raise AnalysisError("extract_reuse_info: how one of several matching notice patterns is chosen could not be read (shape not enumerated)")
+
+
 def rule_tables(ck: Check, repo: Repo, folder: Folder) -> None:
     r = ck.rule("R1", "every writer prefix is read back by the first matching reader pattern as that prefix/year/holder")
     prefixes = folder.known(CP, "_COPYRIGHT_PREFIXES")
@@ -31,7 +51,10 @@ def rule_tables(ck: Check, repo: Repo, folder: Folder) -> None:
     compiled = [re.compile(p.pattern, p.flags) for p in pats]  # stdlib re on folded constants only
     ck.trust("stdlib re applied to the folded reader constants and schematic notices generated from the folded"
              " writer table (constants against constants; no repository code runs)")
-    holders = ["Jane Doe", "Example Corp. <https://example.com>", "Ünïcode Wörks & Sons, Inc.", "a", "Yoyodyne Holdings (Europe)"]
+    holders = ["Jane Doe", "Example Corp. <https://example.com>", "Ünïcode Wörks & Sons, Inc.", "a", "Yoyodyne Holdings (Europe)",
+               "The Copyright Holders"]
+    how, meth = reader_choice(repo)
+    r.instance("reader-choice", {"chosen_match": how, "method": meth}, f"{EX}.extract_reuse_info")
     # structural twin of the table: between the lazy statement group and the shared end pattern there is nothing - whatever
     # is put there (an optional bracket, quote, dot) is taken from the END of every holder that ends in it
     from . import c02 as _c02
@@ -57,12 +80,11 @@ def rule_tables(ck: Check, repo: Repo, folder: Folder) -> None:
         for holder in holders:
             for year, ytext in years:
                 line = f"{p} {ytext}{holder}"
+                cands = [(idx, getattr(c, meth)(line)) for idx, c in enumerate(compiled)]
+                cands = [(idx, m) for idx, m in cands if m is not None]
                 first = None
-                for idx, c in enumerate(compiled):
-                    m = c.search(line)
-                    if m is not None:
-                        first = (idx, m)
-                        break
+                if cands:
+                    first = cands[0] if how == "first" else min(cands, key=lambda t: t[1].start())
                 case = {"prefix_key": key, "line": line}
                 r.instance(f"{key}|{year}|{holder}", case if holder == "Jane Doe" and year in (None, "2019 - 2020") else None,
                            f"{CP}._COPYRIGHT_PREFIXES")
@@ -83,7 +105,8 @@ def rule_tables(ck: Check, repo: Repo, folder: Folder) -> None:
                     problems.append(f"notice read as {g.get('copyright')!r}")
                 if problems:
                     r.violation(f"{CP}._COPYRIGHT_PREFIXES[{key}]",
-                                f"prefix {key!r} ({'with' if year else 'without'} year) is read back differently",
+                                f"prefix {key!r} ({'with' if year else 'without'} year) is read back differently"
+                                + (f" for the holder {holder!r} (it contains a copyright word)" if re.search(r"Copyright|©|\([Cc]\)", holder) else ""),
                                 f"{line!r} is read by pattern {idx} with " + "; ".join(problems), loc, case)
     # language part: the year group's language
     year_ref = r"(\d{4} ?- ?\d{4}|\d{4})$"
